@@ -1,0 +1,122 @@
+//go:build verif
+
+package jet
+
+// Contracts for loader.go (C19) and the lock discipline ghost state (C11), checked by /verif/jetvc.
+// Comments only; compiled only under the build tag "verif".
+
+// Held[m]: 0 = not held by this goroutine, 1 = read-locked, 2 = write-locked
+//@ ghost Held (Array Int Int)
+
+//@ func (*sync.RWMutex).Lock
+//@   trusted sync library
+//@   params m
+//@   modifies ghost Held
+//@   nopanic
+//@   requires [no-self-deadlock] Held[m] == 0
+//@   ensures Held == store(old(Held), m, 2)
+//@ func (*sync.RWMutex).RLock
+//@   trusted sync library
+//@   params m
+//@   modifies ghost Held
+//@   nopanic
+//@   requires [no-self-deadlock] Held[m] == 0
+//@   ensures Held == store(old(Held), m, 1)
+//@ func (*sync.RWMutex).Unlock
+//@   trusted sync library
+//@   params m
+//@   modifies ghost Held
+//@   nopanic
+//@   requires [unlock-of-a-write-lock] Held[m] == 2
+//@   ensures Held == store(old(Held), m, 0)
+//@ func (*sync.RWMutex).RUnlock
+//@   trusted sync library
+//@   params m
+//@   modifies ghost Held
+//@   nopanic
+//@   requires [runlock-of-a-read-lock] Held[m] == 1
+//@   ensures Held == store(old(Held), m, 0)
+
+//@ guard InMemLoader.files by &self.lock
+//@ guard Set.globals by self.gmx
+//@ guard global cachedStructsFieldIndex by gaddr(cachedStructsMutex)
+
+//@ pred Norm(p string) := JoinP2("/", p)
+//@ pred LoaderOK(l *InMemLoader) := l != nil && l.files != nil && Held[&l.lock] == 0
+
+//@ func (*InMemLoader).normalize
+//@   props C19
+//@   nopanic
+//@   ensures [normalize-is-clean-absolute] result == Norm(templatePath) && Canon(result)
+
+//@ func (*InMemLoader).Set
+//@   props C19 C11
+//@   requires LoaderOK(l)
+//@   modifies map l.files, ghost Held
+//@   nopanic
+//@   ensures [set-stores-under-the-normalised-path] has(l.files, Norm(templatePath)) && len(l.files[Norm(templatePath)]) == len(contents)
+//@   ensures [set-leaves-other-entries] forallT(k, "string", k != Norm(templatePath) ==> has(l.files, k) == old(has(l.files, k)) && l.files[k] == old(l.files[k]))
+//@   ensures [lock-released] Held == old(Held)
+
+//@ func (*InMemLoader).Delete
+//@   props C19 C11
+//@   requires LoaderOK(l)
+//@   modifies map l.files, ghost Held
+//@   nopanic
+//@   ensures [delete-removes-the-normalised-path] !has(l.files, Norm(templatePath))
+//@   ensures [delete-leaves-other-entries] forallT(k, "string", k != Norm(templatePath) ==> has(l.files, k) == old(has(l.files, k)) && l.files[k] == old(l.files[k]))
+//@   ensures [lock-released] Held == old(Held)
+
+//@ func (*InMemLoader).Exists
+//@   props C19 C11
+//@   requires LoaderOK(l)
+//@   modifies ghost Held
+//@   nopanic
+//@   ensures [exists-iff-stored-under-the-normalised-path] result == has(l.files, Norm(templatePath))
+//@   ensures [lock-released] Held == old(Held)
+
+//@ func (*InMemLoader).Open
+//@   props C19 C11
+//@   requires LoaderOK(l)
+//@   modifies ghost Held
+//@   nopanic
+//@   ensures [open-succeeds-iff-exists] (result1 == nil) == has(l.files, Norm(templatePath))
+//@   ensures [lock-released] Held == old(Held)
+//@   callsite bytes.NewReader 0 requires [open-reads-the-stored-content] b == l.files[Norm(caller.templatePath)]
+
+//@ func NewInMemLoader
+//@   props C19
+//@   nopanic
+//@   ensures fresh(result) && result.files != nil && forallT(k, "string", !has(result.files, k))
+
+//@ func (*OSFileSystemLoader).Exists
+//@   props C19
+//@   requires l != nil
+//@   nopanic
+//@   callsite os.Stat 0 requires [exists-and-open-use-the-same-path] name == FJoin2(l.dir, caller.templatePath)
+//@   check [directories-do-not-exist] result ==> lastret("os.Stat", 1) == nil
+//@   callsite (os.FileInfo).IsDir count 1
+
+//@ func (*OSFileSystemLoader).Open
+//@   props C19
+//@   requires l != nil
+//@   nopanic
+//@   callsite os.Open 0 requires [exists-and-open-use-the-same-path] name == FJoin2(l.dir, caller.templatePath)
+
+//@ func os.Stat
+//@   trusted os library
+//@   nopanic
+//@ func os.Open
+//@   trusted os library
+//@   nopanic
+//@ func (fs.FileInfo).IsDir
+//@   trusted os library
+//@   nopanic
+//@ func bytes.NewReader
+//@   trusted bytes library
+//@   nopanic
+//@   ensures result != nil
+//@ func ioutil.NopCloser
+//@   trusted io library
+//@   nopanic
+//@   ensures result != nil
